@@ -6,6 +6,7 @@ import (
 	"fmt"
 	"io"
 	"math/rand"
+	"net"
 	"os"
 	"path/filepath"
 	"strings"
@@ -447,6 +448,87 @@ func c09(r *vlib.Run) int {
 			r.Violation("password-login-verdict", map[string]interface{}{"user": c.u, "password": c.pw, "source": c.src, "got_session": got, "want_session": want, "error": e})
 		}
 	})
+
+	// ---------------- a server listening on every address (IPv6 too), jobs whose allow lists hold entries that cannot
+	// be resolved (a network in CIDR notation, an empty entry, text that is no host name): nobody is "on" such a list,
+	// whatever the form of the peer's address. An IPv6 peer is granted a job session at most when the list names ::1.
+	func() {
+		v6Names := []string{"v6-cidr", "v6-junk", "v6-loop6", "v6-loop4", "v6-mixed"}
+		v6Allow := [][]string{{"10.1.2.0/24"}, {"", "not a host name"}, {"::1"}, {"127.0.0.1"}, {"", "127.0.0.2", "10.0.0.0/8"}}
+		spec6 := &vlib.ServerSpec{Name: "c09v6", LogLevel: "error",
+			Server: map[string]interface{}{"SSHBindAddress": "[::]", "MaxConnections": 400,
+				"Schedule": jobs(v6Names, v6Allow, true), "Continuous": jobs(v6Names[:2], v6Allow[:2], false)}}
+		srv6, err := r.StartServer(spec6)
+		if err != nil {
+			r.Inconclusive("ipv6-server-start: " + err.Error())
+			return
+		}
+		defer srv6.Stop()
+		type ep struct{ addr, local, src string }
+		eps := []ep{{fmt.Sprintf("[::1]:%d", srv6.Spec.Port), "", "::1"}, {srv6.Addr(), "127.0.0.1", "127.0.0.1"}, {srv6.Addr(), "127.0.0.2", "127.0.0.2"}}
+		if c, err := net.DialTimeout("tcp", eps[0].addr, 3*time.Second); err != nil {
+			r.Count("ipv6_loopback_unavailable", 1)
+			eps = eps[1:]
+		} else {
+			c.Close()
+		}
+		type v6Case struct {
+			u, pw string
+			e     ep
+		}
+		var cs []v6Case
+		for _, u := range []string{"DTAIL-SCHEDULE", "DTAIL-CONTINUOUS", "DTAIL-HEALTH"} {
+			for _, pw := range append([]string{"DTAIL-HEALTH", ""}, v6Names...) {
+				for _, e := range eps {
+					cs = append(cs, v6Case{u, pw, e})
+				}
+			}
+		}
+		vlib.Parallel(len(cs)*r.N(2, 10), 8, func(k int) {
+			c := cs[k%len(cs)]
+			client, _, _, _, err := trySession(c.e.addr, c.u, []ssh.AuthMethod{ssh.Password(c.pw)}, c.e.local)
+			got := err == nil
+			if client != nil {
+				client.Close()
+			}
+			must, may := false, false
+			switch c.u {
+			case "DTAIL-HEALTH":
+				must = c.pw == "DTAIL-HEALTH"
+			case "DTAIL-SCHEDULE", "DTAIL-CONTINUOUS":
+				for i, nme := range v6Names {
+					if c.u == "DTAIL-CONTINUOUS" && i >= 2 {
+						break
+					}
+					if c.pw != nme {
+						continue
+					}
+					for _, a := range v6Allow[i] {
+						if a == c.e.src {
+							if c.e.src == "::1" {
+								may = true // the statement says "only"; whether IPv6 peers can be listed at all is not its subject
+							} else {
+								must = true
+							}
+						}
+					}
+				}
+			}
+			r.Eval(fmt.Sprintf("pw6|%s|%s|%s", c.u, c.pw, c.e.src))
+			r.Count("password_attempts_on_the_all_addresses_server_from_"+c.e.src, 1)
+			if got != must && !(got && may) {
+				e := ""
+				if err != nil {
+					e = err.Error()
+				}
+				r.Violation("password-login-verdict", map[string]interface{}{"server": "listening on [::]", "user": c.u, "password": c.pw, "source": c.e.src,
+					"allow_lists": v6Allow, "jobs": v6Names, "got_session": got, "want_session": must, "error": e})
+			}
+		})
+		if !srv6.D.Alive() {
+			r.Violation("server-died", map[string]interface{}{"server": "listening on [::]", "log": vlib.Trunc(string(srv6.D.Log()), 3000)})
+		}
+	}()
 
 	// ---------------- the real clients of the fixed service users: dtailhealth
 	// must get its health session (exit 0, "OK"); a session is granted "to the
